@@ -22,7 +22,7 @@ RULE = ('histories of 1-10 steps: unit environments opened with valid units (dic
 SHARDS = {'quick': 16, 'thorough': 16}
 MIN_NONTRIVIAL = {'quick': 600, 'thorough': 15000}
 REQUIRED_CLASSES = ['scope-valid', 'scope-nested', 'scope-repeated', 'scope-body-raises', 'fail:duplicate-standard', 'fail:duplicate-outer',
-                    'fail:prefixed-clash', 'fail:malformed', 'fail:malformed-entry-with-new-conversion-type', 'fail:entry-admits-an-unknown-prefix', 'custom-type-unit-used-inside-scope', 'fail-after-successes', 'form:dict', 'form:quantity', 'form:prefixes', 'form:builtin-type', 'nested-scopes-share-a-conversion-class',
+                    'fail:prefixed-clash', 'fail:malformed', 'fail:malformed-entry-with-new-conversion-type', 'fail:entry-admits-an-unknown-prefix', 'custom-type-unit-used-inside-scope', 'fail-after-successes', 'form:dict', 'form:quantity', 'form:prefixes', 'form:builtin-type', 'nested-scopes-share-a-conversion-class', 'overlapping-lifetimes', 'overlapping-lifetimes:class-brought-by-first', 'overlapping-lifetimes:class-brought-by-second',
                     'form:custom-type', 'dip:valid', 'dip:clash-second-unit', 'dip:unrelated-error', 'dip:expression', 'dip:add_unit',
                     'dip:nested-in-scope', 'dip:units-from-source']
 REQUIRED_MONITORS = ['scope_events', 'scope_end_digest_compares', 'failed_open_digest_compares', 'parse_digest_compares',
@@ -185,7 +185,14 @@ def cases(rng, tier, shard, nshards, ctx):
         hist = []
         for _ in range(rng.randint(1, 4)):
             r = rng.random()
-            if r < 0.6:
+            if r < 0.08:
+                na, nb = rng.sample(NAMES, 2)
+                # (both units with the SAME class is left out: the class belongs to the scope that registered it first, and with lifetimes that are not
+                #  nested it goes when that scope goes - the statement speaks of nested scopes only)
+                fa, fb = rng.choice([('custom-type', 'dict'), ('dict', 'custom-type'), ('dict', 'quantity'), ('prefixes', 'custom-type'), ('custom-type', 'quantity')])
+                hist.append(dict(t='overlap', a=dict(sym=na, form=fa, mag=rng.choice([2.0, 0.5, 12.5]), pre=['k', 'M'] if fa == 'prefixes' else None),
+                                 b=dict(sym=nb, form=fb, mag=rng.choice([3.0, 1e3]), pre=None)))
+            elif r < 0.6:
                 hist.append(gen_scope(rng, 1, NAMES, set()))
             else:
                 hist.append(gen_dip(rng, set()))
@@ -226,9 +233,49 @@ def unit_dict(ctx, u):
     return d
 
 
+def run_overlap(it, ctx, st):
+    """two scopes whose lifetimes overlap WITHOUT being nested (opened A, B - closed A, B), outside any other scope.  Not a
+    nesting, so the per-scope trace rule does not apply (its events are taken out of the log); demanded here: after A ends its
+    units are gone and B's still work, after B ends the tables are what they were before A"""
+    UE, Q, log = ctx['UE'], ctx['Q'], ctx['log']
+    n0 = len(log)
+    d0 = tables.digest()
+    ua, ub = it['a'], it['b']
+    st['classes'].add('overlapping-lifetimes')
+    st['classes'].add('overlapping-lifetimes:class-brought-by-' + ('first' if ua['form'] == 'custom-type' else 'second' if ub['form'] == 'custom-type' else 'none'))
+    st['nontrivial'] = True
+    A = B = None
+    try:
+        A = UE({ua['sym']: unit_dict(ctx, ua)})
+        B = UE({ub['sym']: unit_dict(ctx, ub)})
+        check_usable(ctx, st, [ua, ub])
+        A.close(); A = None
+        check_unusable(ctx, st, [ua['sym']])
+        check_usable(ctx, st, [ub])
+        B.close(); B = None
+        check_unusable(ctx, st, [ub['sym']])
+    except Exception as e:
+        st['devs'].append(dev('overlapping-scopes-raise', dict(a=ua, b=ub, exc=repr(e)[:160])))
+    finally:
+        for env in (B, A):
+            if env is not None:
+                try:
+                    env.close()
+                except Exception:
+                    pass
+    st['mon']['overlap_digest_compares'] = st['mon'].get('overlap_digest_compares', 0) + 1
+    d1 = tables.digest()
+    if d1 != d0:
+        st['devs'].append(dev('tables-differ-after-two-overlapping-scopes-ended', dict(diff=tables.diff(d0, d1), a=ua, b=ub)))
+    del log[n0:]
+
+
 def run_items(items, ctx, st, active):
     for it in items:
-        if it['t'] == 'scope':
+        if it['t'] == 'overlap':
+            if not active:
+                run_overlap(it, ctx, st)
+        elif it['t'] == 'scope':
             run_scope(it, ctx, st, active)
         elif it['t'] == 'dip':
             run_dip(it, ctx, st, active)
